@@ -141,6 +141,21 @@ def law_violations(m, xs, ys, r, dtype=None):
     const = len(set(xs)) == 1
     scale = max(1.0, float(np.max(np.abs(fx))), float(np.max(np.abs(fy))))
     if dtype is np.float32: scale *= 1e4        # single-precision samples: results carry single-precision rounding
+    # the x-on-y shortcut (used by ISIMIP's imputation): in "normal" mode it IS quantile_map_non_parametically(x, y, x);
+    # in either mode values that are equal have equal images and the order of distinct values is kept
+    try:
+        from ibicus.utils._math_utils import quantile_map_x_on_y_non_parametically as xony
+        for mode in ("normal", "isimipv3.0"):
+            q = np.asarray(xony(fx, fy, mode=mode), dtype=float)
+            if mode == "normal" and not np.array_equal(q, np.asarray(m.quantile_map_non_parametically(fx, fy, fx), dtype=float)):
+                out.append(("x-on-y:normal-differs-from-qmap", dict(n=[len(xs), len(ys)])))
+            o = np.argsort(fx, kind="stable"); sx, sq = fx[o], q[o]
+            if np.any((np.diff(sx) == 0) & (np.diff(sq) != 0)):
+                out.append(("x-on-y:equal-inputs-different-images:" + mode, dict(n=[len(xs), len(ys)])))
+            if np.any(np.diff(sq) < -1e-12 * scale):
+                out.append(("x-on-y:not-monotone:" + mode, dict(n=[len(xs), len(ys)])))
+    except ImportError:
+        pass
     for em in ECDF:
         e = m.ecdf(fx, fp, method=em)
         if np.any(~np.isfinite(e)) or np.any(e < -TOL) or np.any(e > 1 + TOL):
